@@ -1,8 +1,10 @@
-/- Driver ops for Game2048.  Ops: game2048.state, game2048.step, game2048.judge, game2048.row, game2048.instance -/
+/- Driver ops for Game2048.  Ops: game2048.state, game2048.step, game2048.judge, game2048.row, game2048.instance, game2048.spec -/
 import JumanjiModel.Bridge.Json
 import JumanjiModel.Env.Game2048.Model
 import JumanjiModel.Env.Game2048.Bounds
 import JumanjiModel.Bridge.PuzzleBounds
+import JumanjiModel.Bridge.Spec
+import JumanjiModel.Env.Game2048.SpecLemmas
 open Lean Jb
 
 namespace Jb.Game2048
@@ -23,6 +25,9 @@ def jObs (o : Obs) : Json := jObj [("board", jNatGrid o.board), ("action_mask", 
 
 def getObs (j : Json) : Except String Obs := do
   pure { board := ← fNatGrid j "board", actionMask := ← fBools j "action_mask" }
+
+def jNValue (v : Sp.NValue) : Json := jList (fun (e : String × Sp.Arr) => jObj [("key", jStr e.1), ("value", SpecOps.jArr e.2)]) v
+def jNested (s : Sp.Nested) : Json := jList (fun (e : String × Sp.Leaf) => jObj [("key", jStr e.1), ("spec", SpecOps.jLeaf e.2)]) s
 
 def getDraw (j : Json) : Except String Draw := do
   pure { idx := ← fNat j "idx", val := ← fNat j "val" }
@@ -49,6 +54,11 @@ def opStep : Op := fun j => do
     if slideBoard s.board dir != m.1 then throw "L2 slideBoard differs from L1 move on this board"
     if boardReward s.board dir != m.2 then throw "L2 boardReward differs from L1 move reward on this board"
   let (s', ts) := step s a d
+  -- wave 3: the whole-step rules `stepL2` (theorem game2048_step_eq_rules) against L1 on this very input
+  if 0 ≤ a ∧ a < 4 ∧ s.actionMask = legalMask s.board then
+    let (r', rts) := stepL2 s a.toNat d
+    if r' != s' || rts.stepType != ts.stepType || rts.reward != ts.reward || rts.discount != ts.discount || rts.obs != ts.obs then
+      throw "L2 stepL2 (whole-step rules) differs from L1 step on this input"
   pure (jObj [("state", jState s'), ("ts", jTimeStep jObs ts),
               ("valid", jBool (if a < 0 then false else decide (legal s.board a.toNat)))])
 
@@ -65,6 +75,9 @@ def opState : Op := fun j => do
   pure (jObj [("mask", jBools (actionMask s.board)),
               ("legal", jBools (legalMask s.board)),
               ("obs", jObs (observe s)),
+              -- wave 3: the observation as spec-level arrays (shape, dtype, data) and whether the model's `obsSpec n` accepts it
+              ("nvalue", jNValue (toNValue (observe s))),
+              ("obs_in_spec", jBool ((obsSpec n).valid (toNValue (observe s)))),
               ("consistent", jBool (decide (Consistent n s))),
               ("objective", jRat obj)])
 
@@ -109,7 +122,18 @@ def opBounds : Op := fun j => do
   let n ← fNat cfg "n"
   pure (jBoundsTable (obsBounds n))
 
+/-- {"cfg": {"n"}} → the specs of the model (`obsSpec n`, `actionSpec`, reward and discount spec) in the `speclib.leaf_json`
+    layout, and `generate_value()` of the action spec -/
+def opSpec : Op := fun j => do
+  let cfg ← field j "cfg"
+  let n ← fNat cfg "n"
+  pure (jObj [("observation_spec", jNested (obsSpec n)), ("action_spec", SpecOps.jLeaf actionSpec),
+              ("reward_spec", SpecOps.jLeaf PzS.rewardSpec), ("discount_spec", SpecOps.jLeaf PzS.discountSpec),
+              ("action_spec_wf", jBool actionSpec.WF),
+              ("generate_value", SpecOps.jArr actionSpec.generate),
+              ("generate_value_legal", jBool (actionSpec.generate == actionArr 0))])
+
 def ops : List (String × Op) :=
-  [("game2048.step", opStep), ("game2048.state", opState), ("game2048.judge", opJudge),
+  [("game2048.spec", opSpec), ("game2048.step", opStep), ("game2048.state", opState), ("game2048.judge", opJudge),
    ("game2048.row", opRow), ("game2048.bounds", opBounds), ("game2048.instance", opInstance)]
 end Jb.Game2048
